@@ -499,8 +499,8 @@ carquet_status_t carquet_delta_encode_int32(
 
     /* Encode remaining values */
     for (int32_t i = 1; i < num_values; i++) {
-        /* Use unsigned subtraction to avoid overflow UB, then reinterpret as signed */
-        int64_t delta = (int64_t)((uint64_t)(int64_t)values[i] - (uint64_t)enc.last_value);
+        /* INT32 deltas wrap in 32 bits, so that no mini-block needs more than 32 bits */
+        int64_t delta = (int64_t)(int32_t)((uint32_t)values[i] - (uint32_t)enc.last_value);
         enc.deltas[enc.delta_count++] = delta;
         enc.last_value = values[i];
 
